@@ -93,7 +93,8 @@ impl Srv {
         let id = u64::from_le_bytes(frame[16..24].try_into().unwrap());
         let q = u64::from_le_bytes(frame[24..32].try_into().unwrap()) as usize;
         let query = String::from_utf8_lossy(&frame[48..48 + q]).to_string();
-        let tag = if query.starts_with("/n") { 1_000_000 + query.trim_start_matches("/n").parse::<u64>().unwrap_or(0) } else { query.trim_start_matches("/c").parse::<u64>().unwrap_or(999) };
+        // "/f<k>": a forwarded request (answer it); "/x<k>": a forwarded request the server never answers
+        let tag = if query.starts_with("/f") { 2_000_000 + query.trim_start_matches("/f").parse::<u64>().unwrap_or(0) } else if query.starts_with("/x") { 3_000_000 + query.trim_start_matches("/x").parse::<u64>().unwrap_or(0) } else if query.starts_with("/n") { 1_000_000 + query.trim_start_matches("/n").parse::<u64>().unwrap_or(0) } else { query.trim_start_matches("/c").parse::<u64>().unwrap_or(999) };
         Some((id, tag))
     }
     fn send(&mut self, bytes: &[u8]) -> bool {
@@ -189,6 +190,7 @@ struct Plan {
     ser_fail: bool,            // a further call whose body fails to serialize overlaps with the calls (it must not disturb the id sequence)
     cancel_queued: bool,       // caller 1 is stuck writing a large request; caller 2, queued on the writer, is cancelled; caller 1 must still succeed
     notifies: usize,           // the client sends this many notifies before its calls: they draw ids from the same counter
+    forward: Option<&'static str>, // async: forward_message phases after the calls returned: "low" | "timeout"
     collide: bool,             // async: while all calls are in flight, a forward_message reuses an in-flight id (must be refused, must not disturb the call)
     big_writer: bool,          // one more caller is stuck writing a multi-MiB request when the fault arrives; the socket stays open afterwards
 }
@@ -333,6 +335,14 @@ fn run_plan(kind: Kind, plan: &Plan, rt: &tokio::runtime::Runtime, log: &Arc<Log
         }
         // keep serving (the "later" call) until the client goes away
         while let Some((id, tag)) = srv.read_req(Duration::from_millis(400)) {
+            if tag >= 3_000_000 { log_s.push(json!({"ev": "fsent", "c": tag - 3_000_000, "id": id})); continue; }
+            if tag >= 2_000_000 {
+                let c = tag - 2_000_000;
+                log_s.push(json!({"ev": "fsent", "c": c, "id": id}));
+                log_s.push(json!({"ev": "srv", "kind": "resp", "id": id, "tag": c}));
+                srv.send(&resp_frame(id, c));
+                continue;
+            }
             if tag >= 1_000_000 { log_s.push(json!({"ev": "nsent", "id": id})); continue; }
             log_s.push(json!({"ev": "sent", "c": tag, "id": id}));
             log_s.push(json!({"ev": "srv", "kind": "resp", "id": id, "tag": tag}));
@@ -521,6 +531,30 @@ fn run_plan(kind: Kind, plan: &Plan, rt: &tokio::runtime::Runtime, log: &Arc<Log
             }
         }
     }
+    // forward_message (async client): the request id is the caller's, the client's own counter must not move
+    if let (Some(mode), AnyClient::Async(cl)) = (plan.forward, &client) {
+        let sent_ids: Vec<u64> = log.ev.lock().unwrap().iter().filter(|(s, e)| *s >= from_seq && e["ev"] == "sent").map(|(_, e)| e["id"].as_u64().unwrap_or(0)).collect();
+        let fwd = |c: u64, id: u64, q: &str, t: Duration| {
+            log.push(json!({"ev": "start", "c": c}));
+            let msg = Message::builder().id(id).query_str(&format!("/{q}{c}")).body_json(&json!({"c": c})).unwrap().build();
+            let r = rt.block_on(cl.forward_message_with_timeout(&msg, t));
+            let (cls, rid, rtag, m) = match r {
+                Ok(Some(resp)) => { let v: Value = resp.json_body().unwrap_or(Value::Null); ("ok".to_string(), v["id"].as_u64().unwrap_or(0), v["tag"].as_u64().unwrap_or(0), String::new()) }
+                Ok(None) => ("err".to_string(), 0, 0, "no response to a non-notify forward".to_string()),
+                Err(RepeError::Io(e)) if e.kind() == std::io::ErrorKind::TimedOut => ("timeout".to_string(), 0, 0, e.to_string()),
+                Err(e) => ("err".to_string(), 0, 0, e.to_string().chars().take(80).collect()),
+            };
+            log.push(json!({"ev": "ret", "c": c, "cls": cls, "rid": rid, "rtag": rtag, "msg": m}));
+        };
+        let base_c = plan.callers as u64 + 10;
+        match mode {
+            // the id of a call that has long finished (the lowest one): accepted, answered - and the counter stays where it was
+            "low" => if let Some(id) = sent_ids.iter().copied().min() { fwd(base_c, id, "f", Duration::from_secs(5)); },
+            // a forwarded request nobody answers: it times out and leaves nothing behind - the same id can be used again at once
+            "timeout" => { fwd(base_c, 900_000, "x", Duration::from_millis(120)); fwd(base_c + 1, 900_000, "f", Duration::from_secs(5)); }
+            _ => {}
+        }
+    }
     // one more call on the same client: must fail promptly after a fault, succeed otherwise
     let later = plan.callers as u64 + 1;
     log.push(json!({"ev": "start", "c": later}));
@@ -604,6 +638,7 @@ fn replay_one(kind: Kind, beh: &Value, rt: &tokio::runtime::Runtime) -> Result<u
     verif::gate("cm_reader_read");
     verif::gate("cm_fail_start");
     verif::gate("cm_fail_mid");
+    verif::gate("cm_fail_drained");
     for id in 1..=ncallers + 1 {
         verif::gate(&format!("cm_allocated:{id}"));
         verif::gate(&format!("cm_registered:{id}"));
@@ -678,10 +713,15 @@ fn replay_one(kind: Kind, beh: &Value, rt: &tokio::runtime::Runtime) -> Result<u
                 if !verif::await_parked("cm_fail_mid", 1, wait) { return finish(client, Err(fail("the failing reader did not reach the point between shutting the writer and draining the pending map".into()))); }
             }
             "Fail2" => {
-                let before = verif::passed("cm_fail_mid");
+                // the step is over when the pending map HAS BEEN drained (leaving the cm_fail_mid probe is not enough: a
+                // descheduled reader would drain a registration the specification places after this step)
                 verif::release("cm_fail_mid");
+                if !verif::await_parked("cm_fail_drained", 1, wait) { return finish(client, Err(fail("the failing reader did not finish draining the pending map".into()))); }
+                let before = verif::passed("cm_fail_drained");
+                verif::release("cm_fail_drained");
+                // and it must have LEFT the probe before the gate can be closed again for the next behaviour
                 let t0 = Instant::now();
-                while verif::passed("cm_fail_mid") == before { if t0.elapsed() > wait { return finish(client, Err(fail("the failing reader did not finish".into()))); } std::thread::sleep(Duration::from_micros(100)); }
+                while verif::passed("cm_fail_drained") == before { if t0.elapsed() > wait { return finish(client, Err(fail("the failing reader did not leave the probe after draining".into()))); } std::thread::sleep(Duration::from_micros(100)); }
             }
             "SrvReply" => { srv.send(&resp_frame(x, x)); }
             "SrvJunk" => { if x == 0 { srv.send(&resp_frame(777_000 + i as u64, 99)); } else { srv.send(&resp_frame(x, 99)); } }
@@ -763,7 +803,7 @@ pub fn run(a: &Args) -> i32 {
     let rt = tokio::runtime::Builder::new_multi_thread().worker_threads(4).enable_all().build().unwrap();
     let log = Arc::new(Log { seq: AtomicU64::new(0), ev: Mutex::new(vec![]) });
     let mut plans: Vec<Plan> = vec![];
-    let base = |callers: usize| Plan { callers, read: callers, order: (0..callers).collect(), junk: vec![], fault: None, timeout_ms: None, late: vec![], cancel: vec![], batch: false, subscribe: true, wt_big: false, ser_fail: false, cancel_queued: false, notifies: 0, collide: false, big_writer: false };
+    let base = |callers: usize| Plan { callers, read: callers, order: (0..callers).collect(), junk: vec![], fault: None, timeout_ms: None, late: vec![], cancel: vec![], batch: false, subscribe: true, wt_big: false, ser_fail: false, cancel_queued: false, notifies: 0, forward: None, collide: false, big_writer: false };
     if mode == "c04" {
         // every reply order for n callers, with one junk frame rotating through kinds and positions
         let junk_kinds: Vec<&'static str> = if kind == Kind::Ws { vec!["none", "unknown", "dup", "notify"] } else { vec!["none", "unknown", "dup"] };
@@ -790,6 +830,15 @@ pub fn run(a: &Args) -> i32 {
                 let mut pl = base(m);
                 pl.order.shuffle(&mut rng);
                 pl.collide = true;
+                plans.push(pl);
+            }
+        }
+        // forward_message after the calls: a finished call's id (the counter must not be rewound), and one that times out
+        if kind == Kind::Async {
+            for (m, f) in [(2usize, "low"), (5, "low"), (1, "timeout"), (3, "timeout")] {
+                let mut pl = base(m);
+                pl.order.shuffle(&mut rng);
+                pl.forward = Some(f);
                 plans.push(pl);
             }
         }
@@ -893,6 +942,14 @@ pub fn run(a: &Args) -> i32 {
             pl.late = vec![];
             plans.push(pl);
         }
+        // a forwarded request (forward_message_with_timeout) that is never answered: it times out and leaves nothing behind
+        if kind == Kind::Async {
+            for m in [0usize, 2] {
+                let mut pl = base(m);
+                pl.forward = Some("timeout");
+                plans.push(pl);
+            }
+        }
         // cancellation at the await point after the write (async / ws)
         if kind != Kind::Sync {
             for who in [vec![1usize], vec![2], vec![1, 3], vec![1, 2, 3]] {
@@ -923,5 +980,93 @@ pub fn run(a: &Args) -> i32 {
     let lines = out.lines;
     out.finish();
     util::write_json(&a.str("summary", "/dev/null"), &json!({"plans": nplans, "events": lines}));
+    0
+}
+
+// ---------------------------------------------------------------------------
+// C02 / C04: the clients' response readers are stream-reading entry points too.  A call is in flight; the server
+// sends a well-formed frame nobody is waiting for (unknown id, or a notify nobody subscribed to) whose query and
+// body are hostile in content only (long, multi-byte characters straddling every offset around 64 and 128, invalid
+// UTF-8, error codes with undecodable messages); then the genuine response.  The reader must survive every one of
+// them (no panic anywhere in the process) and the call must return its own response.
+fn stray_queries() -> Vec<(String, Vec<u8>)> {
+    let mut v: Vec<(String, Vec<u8>)> = vec![("empty".into(), vec![]), ("ascii300".into(), vec![b'q'; 300])];
+    for (name, ch) in [("2byte", "é"), ("3byte", "€"), ("4byte", "😀")] {
+        for base in [0usize, 30, 61, 62, 63, 64, 125, 126, 127, 128, 253, 254, 255, 256] {
+            let mut q = vec![b'/'; base];
+            q.extend_from_slice(ch.as_bytes());
+            q.extend_from_slice(&vec![b'z'; 40]);
+            v.push((format!("{name}@{base}"), q));
+        }
+    }
+    for base in [0usize, 63, 64, 127, 255] {
+        let mut q = vec![b'/'; base];
+        q.extend_from_slice(&[0xFF, 0xFE, 0x80]);
+        q.extend_from_slice(&vec![b'z'; 10]);
+        v.push((format!("invalid@{base}"), q));
+    }
+    v
+}
+
+pub fn stray(a: &Args) -> i32 {
+    use std::sync::atomic::AtomicU64;
+    static PANICS: AtomicU64 = AtomicU64::new(0);
+    static LAST: Mutex<String> = Mutex::new(String::new());
+    std::panic::set_hook(Box::new(|info| {
+        PANICS.fetch_add(1, Ordering::SeqCst);
+        *LAST.lock().unwrap_or_else(|e| e.into_inner()) = info.to_string().chars().take(200).collect();
+    }));
+    let rt = tokio::runtime::Builder::new_multi_thread().worker_threads(4).enable_all().build().unwrap();
+    let mut cases: Vec<Value> = vec![];
+    let queries = stray_queries();
+    for kind in [Kind::Sync, Kind::Async, Kind::Ws] {
+        for (qi, (qname, q)) in queries.iter().enumerate() {
+            // the stray frame: body and flags rotate with the query
+            let flavour = ["resp_json", "resp_err_badmsg", "notify", "resp_utf8_bad", "resp_empty"][qi % 5];
+            let listener = TcpListener::bind("127.0.0.1:0").unwrap();
+            let addr = listener.local_addr().unwrap();
+            let acc = std::thread::spawn(move || Srv::accept(&listener, kind));
+            let client = match kind {
+                Kind::Sync => Client::connect(addr).map(AnyClient::Sync),
+                Kind::Async => rt.block_on(AsyncClient::connect(addr)).map(AnyClient::Async),
+                Kind::Ws => rt.block_on(WebSocketClient::connect(&format!("ws://{addr}"))).map(AnyClient::Ws),
+            };
+            let Ok(client) = client else { continue };
+            let Ok(mut srv) = acc.join() else { continue };
+            let before = PANICS.load(Ordering::SeqCst);
+            let (tx, rx) = std::sync::mpsc::channel();
+            let body = json!({"c": 1});
+            match &client {
+                AnyClient::Sync(c) => { let c = c.clone(); std::thread::spawn(move || { let _ = tx.send(classify(c.call_json_with_timeout("/c1", &body, Duration::from_secs(4)))); }); }
+                AnyClient::Async(c) => { let c = c.clone(); rt.spawn(async move { let _ = tx.send(classify(c.call_json_with_timeout("/c1", &body, Duration::from_secs(4)).await)); }); }
+                AnyClient::Ws(c) => { let c = c.clone(); rt.spawn(async move { let _ = tx.send(classify(c.call_json_with_timeout("/c1", &body, Duration::from_secs(4)).await)); }); }
+            }
+            let req = srv.read_req(Duration::from_secs(5));
+            let mut outcome = ("noreq".to_string(), 0u64, 0u64, String::new());
+            if let Some((id, _)) = req {
+                let mut b = Message::builder().id(777_000 + qi as u64).query_bytes(q.clone());
+                b = match flavour {
+                    "resp_json" => b.body_json(&json!({"id": 0, "tag": 99})).unwrap(),
+                    "resp_err_badmsg" => b.error_code(repe::ErrorCode::ApplicationErrorBase).body_bytes(q.clone()).body_format(repe::BodyFormat::Utf8),
+                    "notify" => b.notify(true).body_bytes(q.clone()).body_format(repe::BodyFormat::Utf8),
+                    "resp_utf8_bad" => b.body_bytes(vec![0xFF; 70]).body_format(repe::BodyFormat::Utf8),
+                    _ => b,
+                };
+                srv.send(&b.build().to_vec());
+                // the same hostile query on a frame that DOES match: an error reply to the call in flight would end it, so
+                // only the stray one carries it; then the genuine response
+                srv.send(&resp_frame(id, 1));
+                outcome = rx.recv_timeout(Duration::from_secs(6)).unwrap_or(("hang".to_string(), 0, 0, "the call did not return within 6 s".into()));
+            }
+            std::thread::sleep(Duration::from_millis(2));
+            let panics = PANICS.load(Ordering::SeqCst) - before;
+            cases.push(json!({"client": kind.name(), "query": qname, "query_len": q.len(), "flavour": flavour, "cls": outcome.0, "tag": outcome.2, "msg": outcome.3,
+                              "panics": panics, "panic_msg": if panics > 0 { LAST.lock().unwrap_or_else(|e| e.into_inner()).clone() } else { String::new() }}));
+            drop(client);
+        }
+    }
+    let _ = std::panic::take_hook();
+    util::write_json(&a.req("out"), &json!({"cases": cases}));
+    rt.shutdown_timeout(Duration::from_secs(2));
     0
 }
